@@ -36,6 +36,9 @@ KindActs(k) ==
     [] k = "ctlReqOff"  -> <<ACtlReqAccess("Off")>>
     [] k = "ctlRespOn"  -> <<ACtlRespAccess("On")>>
     [] k = "ctlRespOff" -> <<ACtlRespAccess("Off")>>
+    [] k = "ctlReqLimit1" -> <<ACtlReqLimit(1)>>       \* the limits lowered (1) or raised (4) at run time
+    [] k = "ctlReqLimit4" -> <<ACtlReqLimit(4)>>
+    [] k = "ctlRespLimit1" -> <<ACtlRespLimit(1)>>
     [] OTHER          -> << >>
 \* the status action of a special rule, and whether it is written after the disruptive action (the order of the
 \* actions in the text must not matter: the interruption carries the rule's status)
